@@ -120,6 +120,7 @@ type pointHit struct {
 	Detail string `json:"detail"`
 	Hit    int    `json:"hit"`
 	Action string `json:"action"`
+	T      int64  `json:"t"` // wall clock of the hit (ns)
 }
 
 func readPointLog(path string) []pointHit {
